@@ -6,3 +6,4 @@ driver("drv_kdtree", variant="asan")
 driver("drv_pr", variant="plain", lib=True)
 driver("drv_prfree", variant="tsan")
 driver("drv_byteio", variant="asan", cflags="-fno-access-control")
+driver("drv_endian", variant="plain")
